@@ -341,7 +341,7 @@ def run(ctx):
         n = len([t for t in s if t not in ('mode', 'nofail')])
         bound = pb2 if (n <= 2 or not quick) else 1
         if not quick and n <= 2: bound = 3       # 2 actors: one more preemption than quick (all interleavings do not fit: >200000 per scenario)
-        jobs.append((s, bound, None, 200000 if quick else 60000))
+        jobs.append((s, bound, None, 200000 if quick else 20000))
     # discover fault sites from the default schedule of each scenario
     pre = runner.pmap(run_scenario, [(s, 0, None, 1) for s in scen])
     for (s, _, _, _), st in pre:
@@ -349,7 +349,7 @@ def run(ctx):
         for ai in range(nact):
             for k in range(1, st['maxpoints'].get(ai, 0) + 1):
                 for kind in ('kill', 'eio'):
-                    jobs.append((s, 0 if quick else 1, (ai, k, kind), 20000))
+                    jobs.append((s, 0 if quick else 1, (ai, k, kind), 20000 if quick else 3000))
         if s in (('A', 'B'), ('A', 'M'), ('U', 'V'), ('A', 'B', 'nofail'), ('A', 'M', 'nofail'), ('U', 'V', 'nofail'), ('M', 'D', 'nofail'), ('M', 'D')):
             # ENOSPC at every buffered write of the first and second actor (writes are not
             # scheduling points; one run per write count, default schedule)
